@@ -439,3 +439,13 @@ Example srun_late_alias :
      (false, [], [])]
   /\ exec 5 [] [] evs = Some [(false, []); (false, []); (true, [(1, TVar 0)]); (true, [(1, TVar 0)]); (false, [(1, TVar 0)]); (false, [])].
 Proof. split; vm_compute; reflexivity. Qed.
+
+(* executable: the specification's trace, printed like RunUnifySched.run prints the generator objects' trace, plus
+   the number of active equations; "undef" outside the domain.  The check evaluates it next to run_events_x and
+   compares the two (an instance of run_events_spec on every case) and uses it to validate the reference
+   unifier of its intrinsic oracle (same domain, same number of active equations after every event). *)
+Definition spec_events (n : nat) (evs : list sev) (nvars : nat) : obs :=
+  match srun n [] [] [] evs with
+  | None => otag "undef" []
+  | Some tr => otag "ok" [OL (map (fun x => OL [obool (fst (fst x)); snap den (snd (fst x)) nvars; onat (length (snd x))]) tr)]
+  end.
